@@ -46,9 +46,8 @@ def wide_shape():
 
 
 def tasks(tier, seed):
-    shs = shapes.shape_set(tier, seed, quick_n=10, thorough_n=80)
-    if tier == 'quick':
-        shs = [s for s in shs if s.ns <= 3]
+    shs = shapes.shape_set(tier, seed, quick_n=10, thorough_n=60)
+    shs = [s for s in shs if s.ns <= 3 or (tier == 'thorough' and sum(len(g) for gs in s.prefs for g in gs) <= 7)]
     shs.append(wide_shape())
     out = []
     for I in shs:
